@@ -8,6 +8,7 @@ persistent state `raw` (source, or the file name for file-based templates), `glo
 of program, defaults, variables and call inputs.
 -/
 import DTML.Tmpl
+import DTML.GenTmpl
 set_option linter.unusedVariables false
 namespace DTML.Props.C17
 open DTML.Tmpl
@@ -137,6 +138,61 @@ theorem file_pickles_name {Name Content : Type} (fs1 fs2 : Name → Content) (pa
     (n : Name) (g v : Dict) :
     filePickle ({ raw := n, globals := g, vars := v, cooked := some (parse (fs1 n)) } : FileTmpl Name Prog Dict) =
     filePickle ({ raw := n, globals := g, vars := v, cooked := some (parse (fs2 n)) } : FileTmpl Name Prog Dict) := rfl
+
+
+/-! #### the object life cycle translated from DT_String.py on every run = the state machine above
+
+`GenTmpl.*Gen` are regenerated from the source of `String.__init__`, `initvars`, `cook`, `munge`, `var`, `default`,
+`__getstate__` and the cook-on-first-use block of `__call__` (harness/trans_tmpl.py).  The record `TObj` has the two
+volatile attributes separately; `abs` maps it to the model's state, `Coh` says that `_v_cooked` is present exactly when
+`_v_blocks` is (every operation keeps it, a new object has it). -/
+
+section Gen
+open DTML.GenTmpl
+
+/-- the model's state of an object -/
+def abs (o : TObj Src Prog Dict) : Tmpl Src Prog Dict :=
+  { raw := o.raw, globals := o.globals, vars := o.vars, cooked := if o.v_cooked then o.v_blocks else none }
+
+/-- `_v_cooked` and `_v_blocks` are present together -/
+def Coh (o : TObj Src Prog Dict) : Prop := o.v_cooked = o.v_blocks.isSome
+
+theorem gen_init_is_fresh (E : Engine Src Prog Dict Inp Out) (s : Src) (m kw : Dict) :
+    abs (initGen E s (some m) kw) = fresh E s m kw ∧ Coh (initGen E s (some m) kw) := ⟨rfl, rfl⟩
+
+theorem gen_cook_is_model (E : Engine Src Prog Dict Inp Out) (o : TObj Src Prog Dict) :
+    abs (cookGen E o) = (step E (abs o) .cook).1 ∧ Coh (cookGen E o) := ⟨rfl, rfl⟩
+
+/-- `munge(source)`, `munge(None, mapping, **kw)`, `munge(source, mapping, **kw)` -/
+theorem gen_munge_is_model (E : Engine Src Prog Dict Inp Out) (o : TObj Src Prog Dict) (s : Src) (m kw : Dict) (b : Bool) :
+    abs (mungeGen E o (some s) none kw false) = (step E (abs o) (.mungeSrc s)).1 ∧
+    abs (mungeGen E o none (some m) kw b) = (step E (abs o) (.mungeVars m kw)).1 ∧
+    abs (mungeGen E o (some s) (some m) kw b) = (step E (abs o) (.mungeBoth s m kw)).1 ∧
+    Coh (mungeGen E o (some s) none kw false) ∧ Coh (mungeGen E o none (some m) kw b) ∧
+    Coh (mungeGen E o (some s) (some m) kw b) := ⟨rfl, rfl, rfl, rfl, rfl, rfl⟩
+
+theorem gen_var_default_is_model (E : Engine Src Prog Dict Inp Out) (o : TObj Src Prog Dict) (kw : Dict) :
+    abs (varGen E o kw) = (step E (abs o) (.var kw)).1 ∧ abs (defaultGen E o kw) = (step E (abs o) (.default kw)).1 ∧
+    (Coh o → Coh (varGen E o kw) ∧ Coh (defaultGen E o kw)) := ⟨rfl, rfl, fun h => ⟨h, h⟩⟩
+
+/-- `__getstate__` + restoring the state into a new instance = the model's `pickle` / `deepcopy`: the three persistent
+attributes survive, both volatile ones are gone -/
+theorem gen_getstate_is_model (E : Engine Src Prog Dict Inp Out) (o : TObj Src Prog Dict) :
+    ∃ o', restore (getstateGen o) = some o' ∧ abs o' = (step E (abs o) .pickle).1 ∧
+      abs o' = (step E (abs o) .deepcopy).1 ∧ o'.v_blocks = none ∧ o'.v_cooked = false :=
+  ⟨_, rfl, rfl, rfl, rfl, rfl⟩
+
+/-- a call cooks when (and only when) `_v_cooked` is absent and renders `_v_blocks` -/
+theorem gen_render_is_model (E : Engine Src Prog Dict Inp Out) (o : TObj Src Prog Dict) (i : Inp) (h : Coh o) :
+    abs (renderGen E o i).1 = (step E (abs o) (.render i)).1 ∧ (renderGen E o i).2 = (step E (abs o) (.render i)).2 ∧
+    Coh (renderGen E o i).1 := by
+  unfold Coh at h
+  cases hc : o.v_cooked <;> cases hb : o.v_blocks <;> simp_all [renderGen, ensureGen, cookGen, abs, step, ensureCooked, Coh]
+
+example : Coh (initGen (Src := Nat) (Prog := Nat) (Dict := Nat) (Inp := Nat) (Out := Nat)
+    ⟨id, fun p _ _ _ => p, (· + ·), (· + ·), 0⟩ 1 (some 2) 3) := rfl
+
+end Gen
 
 /-! #### the hypotheses are satisfiable: a concrete engine and history -/
 
